@@ -89,7 +89,7 @@ def run_state(case):
         else:
             env.place_order(bid, vol, trader, price=price)
 
-    def audit(step):
+    def audit(step, arrays=True):
         orders = [tuple(o) for o in env.get_orders()]
         exp = expected_from_orders(orders, tick)
         bp, ap, bv, av, lv = exp
@@ -98,6 +98,8 @@ def run_state(case):
             feat["asym"] += 1
             if last_trade_vol not in (bp, ap, bv, av, 0):
                 feat["asym_with_trade_vol"] = feat.get("asym_with_trade_vol", 0) + 1
+        if not arrays:
+            return exp
         if numpy_api:
             check_array("StepEnvNumpy.level_1_data()", env.level_1_data(), expected_l1(last_trade_vol, exp), lambda k: L1_DOC[k])
             check_array("StepEnvNumpy.level_2_data()", env.level_2_data(), expected_l2(last_trade_vol, exp), l2_name)
@@ -108,7 +110,10 @@ def run_state(case):
         return exp
 
     audit(-1)
+    quiet_mask = case.get("quiet", 0)
     for step, op in enumerate(ops):
+        # quiet calls: the observation arrays are not read after the call (state cached between reads is compared too)
+        quiet = bool((quiet_mask >> (step % 64)) & 1) and step != len(ops) - 1
         if op[0] == "place":
             _, bid, vol, trader, k = op
             place(bid, vol, trader, k * tick)
@@ -125,7 +130,7 @@ def run_state(case):
             env.step()
             feat["steps"] += 1
             last_trade_vol = sum(t[3] for t in env.get_trades()[n_tr:])
-            exp = audit(step)
+            exp = audit(step, arrays=not quiet)
             bp, ap, bv, av, lv = exp
             series["bid_price"].append(bp)
             series["ask_price"].append(ap)
@@ -138,7 +143,8 @@ def run_state(case):
                 series["ask_vol_%d" % i].append(lv[i][2])
                 series["n_ask_%d" % i].append(lv[i][3])
             continue
-        audit(step)
+        if not quiet:
+            audit(step)
     # market-data dictionary: exactly the documented keys, each bound to the matching series
     md = env.get_market_data()
     feat["dicts"] += 1
@@ -200,7 +206,7 @@ def state_case_st():
     sparse = st.one_of(st.just(("step",)), st.just(("step",)), st.just(("step",)), st.just(("step",)), bid, ask, st.tuples(st.just("cancel"), st.integers(0, 65535)))
     long_run = st.tuples(prefix, st.lists(sparse, min_size=150, max_size=420)).map(lambda t: t[0] + t[1] + [("step",)])
     ops = st.integers(0, 9).flatmap(lambda k: long_run if k == 0 else short)
-    return st.fixed_dictionaries({"tick": st.integers(1, 10), "seed": st.integers(0, 2**32), "step_size": st.sampled_from([100, 1000, 10**6]), "numpy_api": st.booleans(), "ops": ops})
+    return st.fixed_dictionaries({"tick": st.integers(1, 10), "seed": st.integers(0, 2**32), "step_size": st.sampled_from([100, 1000, 10**6]), "numpy_api": st.booleans(), "ops": ops, "quiet": st.one_of(st.just(0), st.integers(0, 2**64 - 1))})
 
 
 # ---------------------------------------------------------------------------------------------
